@@ -9,6 +9,7 @@ pub mod c04;
 pub mod c05;
 pub mod c06;
 pub mod c07;
+pub mod c08;
 pub mod c13;
 #[cfg(feature = "sched")]
 pub mod c14;
@@ -26,6 +27,7 @@ pub fn run(id: &str, o: &Opts, stats: &mut Stats) -> Option<usize> {
         "C05" => c05::run(o, stats),
         "C06" => c06::run(o, stats),
         "C07" => c07::run(o, stats),
+        "C08" => c08::run(o, stats),
         "C13" => c13::run(o, stats),
         #[cfg(feature = "sched")]
         "C14" => c14::run(o, stats),
